@@ -58,7 +58,7 @@ func TestC08(t *testing.T) {
 		}
 		nreq := rapid.IntRange(1, 8).Draw(t, "nreq")
 		overw, bigReq := 0, false
-		slow := hx.TFDuration(tf) < time.Minute
+		slow := hx.TFDuration(tf) < 5*time.Minute
 		skip := func(s int64) bool {
 			return tf == "1D" && jan1Slot(s) && hx.KFOpen("KF-08a")
 		}
